@@ -152,6 +152,26 @@ theorem array_writes_are_bounds_checked (xs : List Int) (i : Int) (x : Int) (p :
     have h2 : ¬ (xs.length : Int) ≤ i := fun x => h (Or.inr x)
     simp [h, h1, h2, mkInt, bind, Except.bind, pure, Except.pure]
 
+/-! ### int values widen to long in assignments and calls -/
+
+/-- an int bound to a `long` declaration or parameter is stored as a long of the same value -/
+theorem int_bound_to_long_becomes_long (x : Int) :
+    (widenFor (.prim "long") (mkInt x)).type = .Long ∧ (widenFor (.prim "long") (mkInt x)).longValue = x := by
+  simp [widenFor, widenIntToLong, mkInt]
+
+/-- assigning an int to a variable that holds a long keeps it a long -/
+theorem int_assigned_to_long_variable_becomes_long (old : Value) (x : Int) (h : old.type = .Long) :
+    (widenLike old (mkInt x)).type = .Long ∧ (widenLike old (mkInt x)).longValue = x := by
+  simp [widenLike, widenIntToLong, mkInt, h]
+
+/-- nothing else is touched: values that are not ints, and slots that are not longs, are stored as they are -/
+theorem widening_is_only_int_to_long (ty : Ty) (v : Value) (h : v.type ≠ .Int) : widenFor ty v = v := by
+  unfold widenFor widenIntToLong
+  split
+  · have : (v.type == VT.Int) = false := by simpa using h
+    simp [this]
+  · rfl
+
 /-! Non-vacuity (tests of the statements): `"a" + true` concatenates; `7 % 2` is an int. -/
 example : binop "+" (mkString "a") (mkBool true) {} = .ok (mkString ("a" ++ valueToString (mkBool true))) :=
   plus_with_a_string_concatenates _ _ _ (Or.inl rfl)
